@@ -123,8 +123,8 @@ def shard(col, module, pop_bound, limit, with_assertions):
 
 
 def run(ctx):
-    modules = ["numeric", "containers", "shapes", "raising"] if ctx.quick else \
-        ["numeric", "containers", "shapes", "strings", "raising"]
+    modules = ["numeric", "containers", "shapes", "raising", "equalish"] if ctx.quick else \
+        ["numeric", "containers", "shapes", "strings", "raising", "equalish", "excs"]
     jobs = []
     for m in modules:
         jobs.append((m, 1 if ctx.quick else 2, 40 if ctx.quick else 400, False))
